@@ -322,6 +322,20 @@ def check(ctx):
                 "constant is merged with the missing ones"))
         ctx.ob("GRD-sentinel", uq, norm(c), c, ok, why, chain=chain,
                clause="missing values compare equal to each other and to nothing else")
+    # the substituted constant is itself NOT missing: replacing NaT by NaT normalises nothing.  A NumPy scalar type called
+    # without an argument gives 0 for numbers and timedelta64 but NaT for datetime64.
+    from ..forms import expand as _expand02
+    import re as _re02
+    for c in reps:
+        if not c.args:
+            continue
+        e_ = _expand02(uq, c.args[0], c)
+        t_ = norm(e_)
+        bad_ = _re02.search(r"\.dtype\.type\(\)$|^np\.datetime64\(\)$|^np\.datetime64\(['\"]NaT['\"]\)$|\.na_value$|^np\.nan$|^(float|np\.float64)\(['\"]nan['\"]\)$", t_)
+        ctx.ob("GRD-sentinel", uq, f"value substituted for the missing keys: {t_[:60]}", c, not bad_,
+               "a value of the column's dtype that is not missing itself" if not bad_ else
+               f"{t_} is (for datetime64: np.datetime64() is NaT) itself a missing value: the missing keys are replaced by NaT, NaT != NaT, and "
+               f"every row with a missing date stays its own key", clause="missing values compare equal to each other and to nothing else")
     # the first-seen scan compares the key tuples themselves
     LOSSY = {"builtins.hash", "builtins.id", "builtins.str", "builtins.repr", "builtins.len", "builtins.sum", "builtins.bool"}
     tests = [n for n in body_nodes(uq.node) if isinstance(n, ast.Compare) and len(n.ops) == 1 and isinstance(n.ops[0], (ast.NotIn, ast.In))
